@@ -1179,7 +1179,9 @@ fn check_d_at(inj_host: &str, injections: &[usize], exception: Option<&str>, exc
     l.evaluations += 1;
     l.states += 1;
     l.transitions += 1;
-    let mut rules: Vec<String> = injections.iter().map(|b| format!("{}##+js({})", inj_host, BODIES[*b])).collect();
+    // `inj_host` may name several locations separated by '|': the same injection then reaches the
+    // page through several rules (it is still one injection, and one exception removes it)
+    let mut rules: Vec<String> = inj_host.split('|').flat_map(|h| injections.iter().map(move |b| format!("{}##+js({})", h, BODIES[*b]))).collect();
     if let Some(x) = exception {
         let r = format!("{}#@#+js({})", exc_host, x);
         if exc_first {
@@ -1427,6 +1429,29 @@ fn check(ctx: &Ctx) -> i32 {
         let exc = if x < sub.len() { BODIES[sub[x]] } else { "" };
         check_d_at(ih, &[b1], Some(exc), eh, first, l);
     });
+    // the same injection requested by two rules (two locations that both cover the page, or the
+    // same rule twice) x exception location x exception body
+    let doubles: Vec<String> = {
+        let mut v = vec![];
+        for (i, a) in D_INJ_HOSTS.iter().enumerate() {
+            for b in D_INJ_HOSTS.iter().skip(i) {
+                v.push(format!("{}|{}", a, b));
+            }
+        }
+        v.push("example.com,sub.example.com".to_string()); // one rule, two locations
+        v
+    };
+    ctx.bound("d_double_request_locations", json!(doubles));
+    let nd = doubles.len() as u64;
+    ctx.par_range("d-double-requests", nd * ne * ns * (ns + 1) * 2, 16, |i, l| {
+        let ih = &doubles[(i % nd) as usize];
+        let eh = D_EXC_HOSTS2[((i / nd) % ne) as usize];
+        let b1 = sub[((i / nd / ne) % ns) as usize];
+        let x = ((i / nd / ne / ns) % (ns + 1)) as usize;
+        let first = i / nd / ne / ns / (ns + 1) == 1;
+        let exc = if x < sub.len() { BODIES[sub[x]] } else { "" };
+        check_d_at(ih, &[b1], Some(exc), eh, first, l);
+    });
     // every body injected; one exception / blanket / none
     let all: Vec<usize> = (0..BODIES.len()).collect();
     ctx.par_range("d-all-bodies", (nb + 2) * 3 * 2, 1, |i, l| {
@@ -1482,7 +1507,7 @@ fn check(ctx: &Ctx) -> i32 {
 
     ctx.finish(
         "model_checking",
-        "(a) all 256x256 (resource mask, list mask) pairs, directly and through FilterSet->Engine->url_cosmetic_resources in 3 shapes, plus two lists with the same rule and different masks; all 256 masks x 13 resource kinds as redirect (direct by name/alias and through $redirect rules); (b) all 2^9 edge sets on {s1,s2,f} x optional edge to a missing name per node x both dependency listing orders x node permissions {0,1,2}^3 x s2 function/template style, each with every injection list of <=k elements of a 10-element alphabet in EVERY order through get_scriptlet_resources; (c) every argument text of length <=n over 13 symbols x 8 spellings x 3 positions through a function-style scriptlet in an engine; (d) 20x20 (injection, exception) body pairs x 3 exception hosts x 2 line orders, 4 injection locations x 6 exception locations (site, exact host, entity forms, unrelated) x 6x7 bodies x 2 line orders, plus all bodies with one/blanket/no exception. non-trivial = (a) resource needs a bit, (b) a permissioned resource is reachable from an injected scriptlet, (c) an argument holds a character other than a/z, (d) an applicable exception is present. states = engines / resource stores built, transitions = queries, traces_validated = results compared with the reference",
+        "(a) all 256x256 (resource mask, list mask) pairs, directly and through FilterSet->Engine->url_cosmetic_resources in 3 shapes, plus two lists with the same rule and different masks; all 256 masks x 13 resource kinds as redirect (direct by name/alias and through $redirect rules); (b) all 2^9 edge sets on {s1,s2,f} x optional edge to a missing name per node x both dependency listing orders x node permissions {0,1,2}^3 x s2 function/template style, each with every injection list of <=k elements of a 10-element alphabet in EVERY order through get_scriptlet_resources; (c) every argument text of length <=n over 13 symbols x 8 spellings x 3 positions through a function-style scriptlet in an engine; (d) 20x20 (injection, exception) body pairs x 3 exception hosts x 2 line orders, 4 injection locations x 6 exception locations (site, exact host, entity forms, unrelated) x 6x7 bodies x 2 line orders, the same for an injection requested by two rules at once (11 location pairs), plus all bodies with one/blanket/no exception. non-trivial = (a) resource needs a bit, (b) a permissioned resource is reachable from an injected scriptlet, (c) an argument holds a character other than a/z, (d) an applicable exception is present. states = engines / resource stores built, transitions = queries, traces_validated = results compared with the reference",
         &[
             "emitted argument literals are read as JSON string literals (RFC 8259); raw U+2028 inside a literal is legal there (and in JavaScript since ES2019)",
             "the +js grammar is pinned only as far as: comma separated, backslash-comma = literal comma, optional \"…\" '…' `…` quoting with backslash-quote = literal quote, blanks trimmed, everything else literal; Unspecified: unbalanced quote, text or trailing blanks after a closing quote, runs of >=2 backslashes before a separator, non-blank whitespace (LF, U+2028) at an argument edge, trailing empty argument, a single {…} argument",
